@@ -58,7 +58,7 @@ func cmdReplicas(args []string) {
 			for i := w; i < len(scheds); i += *workers {
 				s := scheds[i]
 				for _, rep := range []string{"A", "B", "C"} {
-					c := runReplica(gen, tmp, *seed+int64(i)*7919, s, rep == "C")
+					c := runReplica(gen, tmp, scheduleSeed(*seed, s.ID), s, rep == "C")
 					mu.Lock()
 					stats["replica_runs"]++
 					stats["blocks"] += int(c.Height)
